@@ -711,7 +711,7 @@ def build(chk: Check) -> None:
     chk.sub("pairs", o_pair, enum=e_pairs, exhaustive_tiers=("quick", "thorough"))
     chk.sub("triples", o_triple, enum=e_triples, exhaustive_tiers=("thorough",), budget_s={"quick": 60, "thorough": 900})
     chk.sub("crs_routes", o_routes, enum=e_routes, exhaustive_tiers=("quick", "thorough"))
-    chk.sub("history", o_history, strategy=s_history(), n={"quick": 300, "thorough": 20000})
+    chk.sub("history", o_history, cov={"quick": 60, "thorough": 6000}, strategy=s_history(), n={"quick": 300, "thorough": 20000})
     chk.sub("cache_pressure", o_history, strategy=s_pressure(), n={"quick": 60, "thorough": 3000}, shrink=False, budget_s={"quick": 60, "thorough": 600})
     chk.known("D3", _known_d3)
     chk.known("D36", _known_d36)
